@@ -1,3 +1,45 @@
+//! C18 — sync42: the work-coalescing queue runs each request once, in order, returning its own
+//! result; the wait list beneath it has exactly one head and hands it on; the size-bounded LRU cache
+//! is a sequential least-recently-used map with exact size accounting.
+
+mod conc;
+mod lru;
+mod wcq;
+mod wl;
+
+use vcore::{Check, Ctx, Outcome};
+
+/// Threaded cases run on OS schedules the harness does not own: a generated run executes the case
+/// once, a replay (strict mode) executes it up to 50 times and reports the first failing run.
+pub const REPLAY_RUNS: usize = 50;
+
+pub fn repeat_if_replay(ctx: &Ctx, f: impl Fn() -> Outcome) -> Outcome {
+    let n = if ctx.strict || ctx.replay { REPLAY_RUNS } else { 1 };
+    let mut last = Outcome::pass();
+    for _ in 0..n {
+        last = f();
+        if last.failed() || last.inconclusive {
+            break;
+        }
+    }
+    last
+}
+
 fn main() {
-    vcore::main_with(vec![], &[]);
+    let check = Check::new(
+        "C18",
+        "exploration",
+        "Four proptest parts. lru-model: op sequences (insert, insert_no_evict, lookup, remove, pop; <= 60 ops, 1-6 keys, sizes from {0,1,2,cap-1,cap,cap+1,cap/2,cap/3+1,2^40,small}, capacities {0,1,2..11,12..99,1000,2^20}) against two admissible sequential LRU models (overwrite refreshes recency or not; lookup always does), plus model-independent size statements and a final drain by pop; non-trivial = >=1 eviction and >=1 overwrite and >=1 insert_no_evict that leaves the cache over capacity. waitlist-sequential: link / unlink(any live guard, by call or by drop) / store / iterate / get_waiter / notify_head sequences in one thread, optionally pre-rolled so the live window crosses the 65 536-slot ring's wrap-around, optionally filling the ring exactly; after every step exactly the oldest live guard is head; non-trivial = an out-of-order unlink while >=3 guards are live. waitlist-threads: 2-9 OS threads x 1-24 rounds of link / wait-until-head with the external-mutex protocol of lsmtk and of the queue (two unlink forms, plus out-of-order abandon), optionally one extra thread that holds 65 536-k slots (k in 0..3) so that other links must block (more waiters than slots) and releases them in order / reversed / even-odd; oracle: unique consecutive indices, pass order == link order, no slot reuse while linked, every thread gets through (stall decided exactly: all unfinished threads parked in untimed futex waits with unchanged context-switch counts over three snapshots and no harness sleep; a 30 s budget yields inconclusive, never a violation); non-trivial = >=1 thread actually parked and >=3 guards linked at once. coalescing-queue-threads: 2-16 OS threads x 20-200 do_work calls into one queue whose core is the harness's (policy always / never / up to n / refuse by input; generated delays inside work; generated yields/spins/sleeps before calls; CPU pinning class free / one CPU / two CPUs); oracle: own output, each input exactly once, can_batch honoured except for a batch's first input, entry order (an input first loaded from the queue before another call started must reach the core first), all calls return (same exact stall detector); non-trivial = >=1 batch with >=2 inputs. Distinct by structural hash of the case. Thread schedules come from the OS and are perturbed only by values that are part of the case; a saved threaded case is therefore replayed up to 50 times (first failing run is reported) and may need more than one replay to fail again.",
+    )
+    .assume("wait-list protocol precondition (from lsmtk KeyValueStore::write and WorkCoalescingQueue::do_work): is_head()/naked_wait are used under one external mutex, and an unlinker either holds that mutex across unlink+notify_head or unlinks, then locks and releases it, then calls notify_head")
+    .assume("while one thread holds (almost) the whole ring, the other threads link without holding the external mutex: a link that blocks on a full ring while holding that mutex would dead-lock the protocol by construction, not by a defect of the list")
+    .assume("the queue only clones an input after it has been linked (WaitGuard::load); the entry-order oracle uses the first clone as a lower bound witness of 'already linked'")
+    .assume("the core returns exactly `taken` outputs and does not panic (the queue's documented contract for cores)")
+    .assume("LRU: lookup counts as a use; whether overwriting refreshes recency is undocumented and both are admitted; pop removes the least recently used entry; entry sizes stay below 2^41 so that sums cannot overflow usize")
+    .assume("single-threaded wait-list sequences never call link while all 65 536 slots are taken (it blocks by design); that case is exercised by the threaded part")
+    .pbt(lru::Lru)
+    .pbt(wl::WlSeq)
+    .pbt(wl::WlThreads)
+    .pbt(wcq::Wcq);
+    vcore::main_with(vec![check], &[("probe-link-wakeup", wl::probe_link_wakeup)]);
 }
